@@ -56,6 +56,14 @@ def r05_1(ctx):
             if e[0] == "CONST" and e[2] not in (0,):
                 if any(c == f"{vv} == 2" and pol for c, pol, _, _ in p.conds):
                     bad.setdefault("constant y for a member in y-mode", (f"val = {e[2]} under vis == 2", e[1]))
+        # in y-mode the value that is stored is the identity with the selection: whatever is assigned last on the path
+        if any(c == f"{vv} == 2" and pol for c, pol, _, _ in p.conds):
+            assigns = [e for e in p.events if e[0].startswith("SRC:") or e[0] == "CONST"]
+            if assigns and assigns[-1][0] != "SRC:CHOICE":
+                last = assigns[-1]
+                bad.setdefault("member value in y-mode decided without asking the selection",
+                               (f"on a path under `{vv} == 2` the last assignment is `{last[0]}` ({last[2] if last[0] == 'CONST' else ast.unparse(last[2])[:40]}): "
+                                "the member can be n although Choice.selection names it - no member is y", last[1]))
     if n_choice < 2:
         raise AnalysisError(f"only {n_choice} choice-member paths in Symbol.bool_value")
     base = f.loc().rsplit(":", 1)[0]
